@@ -59,7 +59,7 @@ for be in BACKS:
         'void enqueue_event_helper(fsm_t* self, event_t evt, _Bool no_queue)', 'evloop_back.spec.h', xform=xf(),
         compose='if (no_queue) {@0} else {@1}', fire={'RW:BIND': (1, 1), 'RW:BIND-pf': (1, 1), 'RW:CONT-push': (1, 1)}, replay=['queue']))
     # do_process_helper (C12): plain and try/catch variants
-    UNITS.append(Unit(be + '.do_process_helper', ['C12', 'C13'], be,
+    UNITS.append(Unit(be + '.do_process_helper', ['C12', 'C04', 'C13'], be,
         [Part(SM, [], 'HandledEnum do_process_helper ( %s , true_ const & , bool is_direct_call )' % ET, xform=xf()),
          Part(SM, [], 'HandledEnum do_process_helper ( %s , false_ const & , bool is_direct_call )' % ET,
               xform=xf(rewrites=[dict(name='exception-object', pat='exception e ;', rep='int e = 0 ;', min=1, max=1),
